@@ -224,19 +224,19 @@ Definition env_value (name s : bytes) : bytes := sdrop s (strlen name + 1).
 
 Lemma getenv_loop_spec env : forall i name res size,
   let '(found, r) := getenv_loop env i name (strlen name) res size in
-  (found = false /\ r = res /\ (i + lenN env <= 10000 -> forall s, In s env -> env_match name s = false)) \/
+  (found = false /\ r = res /\ (i + N.of_nat (length env) <= 10000 -> forall s, In s env -> env_match name s = false)) \/
   (found = true /\ exists s, In s env /\ env_match name s = true /\ r = strlcpy res 0 (env_value name s) size).
 Proof.
   induction env as [|s env IH]; intros i name res size; cbn [getenv_loop].
   - left. repeat split. intros _ s [].
   - destruct (10000 <=? i) eqn:Ei.
-    + left. repeat split. apply N.leb_le in Ei. cbn [lenN]. intros H. lia.
+    + left. repeat split. apply N.leb_le in Ei. cbn [length]. intros H. lia.
     + fold (env_match name s). destruct (env_match name s) eqn:Em.
       * right. split; [reflexivity|]. exists s. repeat split; [now left|exact Em].
       * specialize (IH (i + 1) name res size).
         destruct (getenv_loop env (i + 1) name (strlen name) res size) as [found r].
         destruct IH as [(F & R & A)|(F & s' & I & M & R)].
-        -- left. repeat split; try assumption. cbn [lenN]. intros H s0 [<-|Hin]; [exact Em|]. apply A; [lia|exact Hin].
+        -- left. repeat split; try assumption. cbn [length]. intros H s0 [<-|Hin]; [exact Em|]. apply A; [lia|exact Hin].
         -- right. split; [exact F|]. exists s'. repeat split; [now right|exact M|exact R].
 Qed.
 
@@ -255,7 +255,7 @@ Qed.
 
 (* no entry is missed when the environment has at most 10000 entries *)
 Lemma mi_getenv_notfound env name res size r :
-  64 <= size -> strlen name <> 0 -> lenN env <= 10000 ->
+  64 <= size -> strlen name <> 0 -> N.of_nat (length env) <= 10000 ->
   mi_getenv env name res size = (false, r) -> forall s, In s env -> env_match name s = false.
 Proof.
   intros Hs Hn Hl. unfold mi_getenv. apply N.ltb_ge in Hs. rewrite Hs.
@@ -279,14 +279,14 @@ Proof.
   intros Hs Hf. pose proof (mi_getenv_spec env name res size) as H.
   destruct (mi_getenv env name res size) as [found r].
   destruct H as [(F & R)|(F & S64 & s & I & M & R)].
-  - subst. repeat split; try assumption; try reflexivity. intros; discriminate.
+  - subst. split; [exact Hf|]. split; [reflexivity|]. split; [reflexivity|]. intros; discriminate.
   - destruct (strlcpy_spec res 0 (env_value name s) size) as (Ff & L & Hn & P & Z & O); try lia; try assumption.
-    rewrite <- R in *. repeat split; try assumption.
-    + intros; congruence.
-    + intros _. split; [exact S64|]. exists s. repeat split; try assumption.
-      * intros i Hi. specialize (P i Hi). now rewrite N.add_0_l in P.
-      * now rewrite N.add_0_l in Z.
-      * intros j Hj. apply O. right. lia.
+    rewrite <- R in *. split; [exact Ff|]. split; [exact L|]. split; [intros; congruence|].
+    intros _. split; [exact S64|]. exists s. split; [exact I|]. split; [exact M|]. cbn zeta.
+    split; [exact Hn|]. split; [|split].
+    + intros i Hi. specialize (P i Hi). now rewrite N.add_0_l in P.
+    + now rewrite N.add_0_l in Z.
+    + intros j Hj. apply O. right. lia.
 Qed.
 
 (* ------------------------------------------------------------------------------------------ *)
@@ -351,10 +351,10 @@ Lemma strnicmp_zero_iff w : forall s n,
   (strnicmp w s n = 0%Z <-> map toupper (takeN n w) = map toupper (cstr s)).
 Proof.
   induction w as [|cw w' IH]; intros s n Bw Bs Hs Hn.
-  - rewrite strlen_nil in Hn. assert (n = 0) by lia. subst n.
+  - rewrite strlen_nil in Hn. assert (Hn0 : n = 0) by lia. rewrite Hn0 in *.
     rewrite (strlen0_cstr s Hs). cbn. destruct s; cbn; tauto.
   - destruct (N.eq_dec n 0) as [->|Hn0].
-    + rewrite (strlen0_cstr s Hs). cbn [strnicmp takeN]. cbn. tauto.
+    + rewrite (strlen0_cstr s Hs). cbn. tauto.
     + destruct (strlen_pos_inv s n Hs) as (cs & s' & -> & Hcs & Hc & Hs'); [lia|].
       assert (Hcw : cw <> 0). { intros ->. rewrite strlen_cons_z in Hn. lia. }
       rewrite strlen_cons_nz in Hn by exact Hcw.
@@ -440,4 +440,144 @@ Proof.
     rewrite (word_check V1 w_0 s), (word_check V2 w_FALSE s), (word_check V3 w_NO s), (word_check V4 w_OFF s);
       try exact Bs; try reflexivity; try (vm_compute; discriminate).
     cbn [false_words In]. intuition congruence.
+Qed.
+
+(* ------------------------------------------------------------------------------------------ *)
+(* strtol: closed form                                                                         *)
+(* ------------------------------------------------------------------------------------------ *)
+Fixpoint drop_while (p : N -> bool) (s : bytes) : bytes :=
+  match s with c :: r => if p c then drop_while p r else s | [] => [] end.
+Fixpoint take_while (p : N -> bool) (s : bytes) : bytes :=
+  match s with c :: r => if p c then c :: take_while p r else [] | [] => [] end.
+
+Lemma take_drop_while p s : s = take_while p s ++ drop_while p s.
+Proof. induction s as [|c r IH]; cbn; [reflexivity|]. destruct (p c); cbn; [now rewrite <- IH|reflexivity]. Qed.
+Lemma take_while_all p s : forallb p (take_while p s) = true.
+Proof. induction s as [|c r IH]; cbn; [reflexivity|]. destruct (p c) eqn:E; cbn; [now rewrite E|reflexivity]. Qed.
+Lemma drop_while_hd p s : p 0 = false -> p (hd0 (drop_while p s)) = false.
+Proof. intros H0. induction s as [|c r IH]; cbn; [exact H0|]. destruct (p c) eqn:E; [exact IH|cbn; exact E]. Qed.
+Lemma drop_while_app p a b : forallb p a = true -> p (hd0 b) = false -> drop_while p (a ++ b) = b.
+Proof.
+  intros Ha Hb. induction a as [|c r IH]; cbn in *.
+  - destruct b as [|x y]; cbn in *; [reflexivity|now rewrite Hb].
+  - apply andb_prop in Ha as [H1 H2]. rewrite H1. now apply IH.
+Qed.
+Lemma take_while_app p a b : forallb p a = true -> p (hd0 b) = false -> take_while p (a ++ b) = a.
+Proof.
+  intros Ha Hb. induction a as [|c r IH]; cbn in *.
+  - destruct b as [|x y]; cbn in *; [reflexivity|now rewrite Hb].
+  - apply andb_prop in Ha as [H1 H2]. rewrite H1. f_equal. now apply IH.
+Qed.
+
+Lemma skip_ws_eq s : skip_ws s = drop_while isspace s.
+Proof. induction s as [|c r IH]; cbn; [reflexivity|]. destruct (isspace c); [exact IH|reflexivity]. Qed.
+
+Lemma digits_val_eq s : forall acc,
+  digits_val acc s = (fold_left (fun a c => (a * 10 + Z.of_N (c - 48))%Z) (take_while isdigit s) acc, drop_while isdigit s).
+Proof. induction s as [|c r IH]; intros acc; cbn; [reflexivity|]. destruct (isdigit c); cbn; [apply IH|reflexivity]. Qed.
+
+Definition strip_sign (s : bytes) : bytes := if (hd0 s =? 45) || (hd0 s =? 43) then tl0 s else s.
+
+Lemma strtol10_eq u :
+  strtol10 u =
+  let s1 := drop_while isspace u in
+  let s2 := strip_sign s1 in
+  if isdigit (hd0 s2)
+  then (clamp_long (if hd0 s1 =? 45 then (- decval (take_while isdigit s2))%Z else decval (take_while isdigit s2)),
+        drop_while isdigit s2, true)
+  else (0%Z, u, false).
+Proof.
+  unfold strtol10, strip_sign. rewrite skip_ws_eq. cbn zeta.
+  destruct (drop_while isspace u) as [|c r]; [reflexivity|]. cbn [hd0 tl0].
+  destruct (c =? 45) eqn:E1; cbn [orb].
+  - destruct (isdigit (hd0 r)); [|reflexivity]. rewrite digits_val_eq. reflexivity.
+  - destruct (c =? 43) eqn:E2.
+    + destruct (isdigit (hd0 r)); [|reflexivity]. rewrite digits_val_eq. reflexivity.
+    + cbn [hd0]. destruct (isdigit c); [|reflexivity]. rewrite digits_val_eq. reflexivity.
+Qed.
+
+(* ------------------------------------------------------------------------------------------ *)
+(* the size suffix                                                                             *)
+(* ------------------------------------------------------------------------------------------ *)
+Definition is_unit_char (c : N) : bool := (c =? 75) || (c =? 77) || (c =? 71) || (c =? 84).
+Definition strip_unit (e : bytes) : bytes := if is_unit_char (hd0 e) then tl0 e else e.
+Definition strip_tail (e : bytes) : bytes :=
+  if (hd0 e =? 73) && (hd0 (tl0 e) =? 66) then tl0 (tl0 e) else if hd0 e =? 66 then tl0 e else e.
+
+(* the multiplier (in KiB) selected by the unit character; 0 = no unit: the value is in bytes *)
+Definition unit_mult (c : N) : N :=
+  if c =? 75 then 1 else if c =? 77 then MI_KiB_ else if c =? 71 then MI_MiB_ else if c =? 84 then MI_GiB_ else 0.
+
+(* the documented value of a size option in KiB, saturated *)
+Definition kib_value (v : Z) (unitc : N) : Z :=
+  let size := Z.to_N (Z.max 0 v) in
+  let raw := if unit_mult unitc =? 0 then (size + 1023) / 1024 else size * unit_mult unitc in
+  Z.of_N (if MI_MAX_ALLOC_SIZE <? raw then MI_MAX_ALLOC_SIZE / 1024 else raw).
+
+Definition sat_kib (raw : N) : N := if MI_MAX_ALLOC_SIZE <? raw then MI_MAX_ALLOC_SIZE / MI_KiB_ else raw.
+
+Lemma sat_final_small raw : raw < W64 ->
+  (let s := if false || (MI_MAX_ALLOC_SIZE <? raw) then MI_MAX_ALLOC_SIZE / MI_KiB_ else raw in
+   if (LONG_MAX_ <? Z.of_N s)%Z then LONG_MAX_ else Z.of_N s) = Z.of_N (sat_kib raw).
+Proof.
+  intros Hr. cbn zeta. cbn [orb]. unfold sat_kib.
+  destruct (MI_MAX_ALLOC_SIZE <? raw) eqn:Em.
+  - vm_compute. reflexivity.
+  - apply N.ltb_ge in Em. destruct (LONG_MAX_ <? Z.of_N raw)%Z eqn:El; [|reflexivity].
+    apply Z.ltb_lt in El. exfalso. revert Em El. vm_compute (MI_MAX_ALLOC_SIZE). vm_compute (LONG_MAX_). lia.
+Qed.
+
+Lemma sat_final_mul size m : 0 < m ->
+  (let '(o, w) := mul_overflow size m in
+   let s := if o || (MI_MAX_ALLOC_SIZE <? w) then MI_MAX_ALLOC_SIZE / MI_KiB_ else w in
+   if (LONG_MAX_ <? Z.of_N s)%Z then LONG_MAX_ else Z.of_N s) = Z.of_N (sat_kib (size * m)).
+Proof.
+  intros Hm. unfold mul_overflow. rewrite wrap_mod.
+  destruct (W64 <=? size * m) eqn:Eo.
+  - apply N.leb_le in Eo. cbn [orb]. unfold sat_kib.
+    replace (MI_MAX_ALLOC_SIZE <? size * m) with true.
+    + vm_compute. reflexivity.
+    + symmetry. apply N.ltb_lt. revert Eo. rewrite W64_val. vm_compute (MI_MAX_ALLOC_SIZE). lia.
+  - apply N.leb_gt in Eo. rewrite N.mod_small by exact Eo. apply sat_final_small. exact Eo.
+Qed.
+
+Lemma parse_size_suffix_eq v e : (LONG_MIN_ <= v <= LONG_MAX_)%Z ->
+  parse_size_suffix v e = (kib_value v (hd0 e), strip_tail (strip_unit e)).
+Proof.
+  intros Hv. unfold parse_size_suffix, kib_value, strip_unit, unit_mult, is_unit_char.
+  assert (Hsz : (if (v <? 0)%Z then 0 else Z.to_N v) = Z.to_N (Z.max 0 v)).
+  { destruct (v <? 0)%Z eqn:E; [apply Z.ltb_lt in E|apply Z.ltb_ge in E]; [rewrite Z.max_l by lia; reflexivity|rewrite Z.max_r by lia; reflexivity]. }
+  rewrite Hsz. set (size := Z.to_N (Z.max 0 v)).
+  assert (Hb : size < 2 ^ 63).
+  { unfold size. revert Hv. vm_compute (LONG_MAX_). vm_compute (LONG_MIN_). lia. }
+  fold (sat_kib (if (if hd0 e =? 75 then 1 else if hd0 e =? 77 then MI_KiB_ else if hd0 e =? 71 then MI_MiB_ else if hd0 e =? 84 then MI_GiB_ else 0) =? 0
+                 then (size + 1023) / 1024
+                 else size * (if hd0 e =? 75 then 1 else if hd0 e =? 77 then MI_KiB_ else if hd0 e =? 71 then MI_MiB_ else if hd0 e =? 84 then MI_GiB_ else 0))).
+  destruct (hd0 e =? 75) eqn:EK; cbn [orb].
+  { cbn match. f_equal. change (1 =? 0) with false. cbn match. rewrite N.mul_1_r.
+    apply sat_final_small. rewrite W64_val. lia. }
+  destruct (hd0 e =? 77) eqn:EM; cbn [orb].
+  { pose proof (sat_final_mul size MI_KiB_) as H. destruct (mul_overflow size MI_KiB_) as [o w].
+    cbn match. f_equal. change (MI_KiB_ =? 0) with false. cbn match. apply H. reflexivity. }
+  destruct (hd0 e =? 71) eqn:EG; cbn [orb].
+  { pose proof (sat_final_mul size MI_MiB_) as H. destruct (mul_overflow size MI_MiB_) as [o w].
+    cbn match. f_equal. change (MI_MiB_ =? 0) with false. cbn match. apply H. reflexivity. }
+  destruct (hd0 e =? 84) eqn:ET; cbn [orb].
+  { pose proof (sat_final_mul size MI_GiB_) as H. destruct (mul_overflow size MI_GiB_) as [o w].
+    cbn match. f_equal. change (MI_GiB_ =? 0) with false. cbn match. apply H. reflexivity. }
+  cbn match. f_equal. change (0 =? 0) with true. cbn match.
+  assert (Hw : wsub (wadd size MI_KiB_) 1 / MI_KiB_ = (size + 1023) / 1024).
+  { change MI_KiB_ with 1024. unfold wadd, wsub. rewrite wrap_mod, W64_val. rewrite N.mod_small by lia.
+    replace (1 <=? size + 1024) with true by (symmetry; apply N.leb_le; lia).
+    f_equal. lia. }
+  rewrite Hw. apply sat_final_small.
+  assert ((size + 1023) / 1024 <= size + 1023) by (apply N.div_le_upper_bound; lia).
+  rewrite W64_val. lia.
+Qed.
+
+Lemma clamp_long_range v : (LONG_MIN_ <= clamp_long v <= LONG_MAX_)%Z.
+Proof.
+  unfold clamp_long. change LONG_MAX_ with 9223372036854775807%Z. change LONG_MIN_ with (-9223372036854775808)%Z.
+  destruct (9223372036854775807 <? v)%Z eqn:E1; [lia|]. apply Z.ltb_ge in E1.
+  destruct (v <? -9223372036854775808)%Z eqn:E2; [lia|]. apply Z.ltb_ge in E2. lia.
 Qed.
